@@ -219,7 +219,7 @@ def harness(cfg, sources, name, extra_cflags=(), extra_ldflags=(), repo=None, li
     L = lib(cfg, repo)
     h = hashlib.sha256()
     h.update(L.encode()); h.update(name.encode()); h.update(" ".join(extra_cflags).encode()); h.update(" ".join(extra_ldflags).encode())
-    h.update(extra_hash.encode()); h.update(b"instr1" if instrument_harness else b"instr0")
+    h.update(extra_hash.encode()); h.update(b"instr1" if instrument_harness else b"instr0"); h.update(("|".join(sources) + "|" + str(link_lib)).encode())  # the translation units themselves (ICB bodies share the name "icb")
     hdir = os.path.join(VERIF, "harness")
     deps = sorted(set([os.path.join(VERIF, s) for s in sources] +
                       [os.path.join(dp, f) for sub in ("harness", "fsx", "icb") for dp, _, fs in os.walk(os.path.join(VERIF, sub)) for f in fs if f.endswith((".h", ".c", ".inc"))]))
